@@ -71,7 +71,9 @@ TUnm ==
                          THEN {Len(e.stages)} ELSE {})
      \* the state follows the implementation where it returned success on a full
      \* stream, and is empty otherwise
-     /\ inst' = IF e.err = "" /\ e.pan = "" /\ e.cut = -1 THEN Loaded(e.sid) ELSE Ext(EmptyC, inst.lv, 0)
+     \* (proto.Unmarshal(buf, st) is Reset followed by Unmarshal: no stale derived table)
+     /\ inst' = IF e.err = "" /\ e.pan = "" /\ e.cut = -1 THEN Loaded(e.sid)
+                ELSE IF e.viaproto = 1 THEN EmptyC ELSE Ext(EmptyC, inst.lv, 0)
      /\ last' = e.err
   /\ UNCHANGED <<pool, pc>> /\ lastbat' = <<>> /\ scribbled' = FALSE
 
